@@ -104,30 +104,39 @@ def main(ck):
             body = table[table.index("Definition vm_fields"):].replace("vm_fields", "channel_fields").replace("vm_map_fields", "channel_map_fields").replace("vm_table", "channel_table")
             pre = "(* GENERATED — lock table of std/channel/channel.go *)\nFrom Coq Require Import List String.\nImport ListNotations.\nFrom V.Common Require Import LockDiscipline.\nOpen Scope string_scope.\n\n"
             obl = os.path.join(ck.bdir, "ChannelLockObligations.v")
+            mcl = re.search(r'\((\d+)%nat, "closed"', body)
+            closed_ix = mcl.group(1) if mcl else "0"
             open(obl, "w").write(pre + body + "\nSet Printing Width 100000.\n"
                                  "Definition ill := Eval vm_compute in ill_locked channel_table.\nPrint ill.\n"
                                  "Lemma channel_table_well_locked : well_locked channel_table = true.\nProof. vm_compute. reflexivity. Qed.\n"
                                  "Theorem channel_race_free : forall progs sched, Forall (from_table channel_table) progs -> ~ race (LockDiscipline.run (init_state progs) sched).\n"
                                  "Proof. exact (well_locked_race_free_l channel_table channel_table_well_locked). Qed.\n"
-                                 "(* the shape the LTS assumes: Send does check-and-send under the read lock, Close check-and-close under the\n"
-                                 "   write lock, IsClosed/Receive/Len/Cap take no lock (`closed` is an atomic.Bool, `channel` is set by the constructor) *)\n"
+                                 "(* check-then-act: the atomic test of `closed` that guards Close's Store+close() sits in the SAME exclusive\n"
+                                 "   section as the store (a pre-check outside the lock followed by an unconditional close() under it fails) *)\n"
+                                 "Definition cta_ill := Eval vm_compute in cta_bad channel_table.\nPrint cta_ill.\n"
+                                 "Lemma channel_check_then_act : check_then_act_ok channel_table = true.\nProof. vm_compute. reflexivity. Qed.\n"
+                                 "(* the shape the LTS assumes: Send tests `closed` and sends under the read lock, Close tests, stores and closes\n"
+                                 "   under the write lock, IsClosed is one atomic load, Receive/Len/Cap take no lock (`channel` is set by the constructor) *)\n"
                                  "Lemma channel_send_close_shape :\n"
-                                 "  In (\"Send\", ARLock :: ARUnlock :: nil) channel_table /\\ In (\"Close\", ALock :: AUnlock :: nil) channel_table /\\\n"
-                                 "  In (\"IsClosed\", nil) channel_table /\\ In (\"Receive\", nil) channel_table /\\ In (\"Len\", nil) channel_table /\\ In (\"Cap\", nil) channel_table.\n"
-                                 "Proof. vm_compute. repeat split; repeat (try (left; reflexivity); right). Qed.\n"
+                                 "  In (\"Send\", ARLock :: AARead CL :: ARUnlock :: nil) channel_table /\\ In (\"Close\", ALock :: AARead CL :: AAWrite CL :: AUnlock :: nil) channel_table /\\\n"
+                                 "  In (\"IsClosed\", AARead CL :: nil) channel_table /\\ In (\"Receive\", nil) channel_table /\\ In (\"Len\", nil) channel_table /\\ In (\"Cap\", nil) channel_table.\n"
+                                 "Proof. vm_compute. repeat split; repeat (try (left; reflexivity); right). Qed.\n".replace("CL", closed_ix) +
                                  "Print Assumptions channel_race_free.\n")
             rc, o = ck.coqc(obl, cwd=ck.bdir, timeout=300)
-            ck.obligations += 3
+            ck.obligations += 4
             ck.checker_cmds.append("coqc .build/C09/ChannelLockObligations.v (regenerated from std/channel/channel.go by `c10 walk`)")
-            m = re.search(r"ill\s*=\s*\[(.*?)\]\s*:\s*list string", o, re.S)
+            m = re.search(r"(?<![_a-z])ill\s*=\s*\[(.*?)\]\s*:\s*list string", o, re.S)
             ill = re.findall(r'"([^"]+)"', m.group(1)) if m else []
             ck.cov["channel_ill_locked_methods"] = ill
+            m = re.search(r"cta_ill\s*=\s*\[(.*?)\]\s*:\s*list string", o, re.S)
+            cta_ill = re.findall(r'"([^"]+)"', m.group(1)) if m else []
+            ck.cov["channel_check_then_act_outside_one_section"] = cta_ill
             if rc == 0:
-                ck.discharged += 3
-                ck.theorems += ["channel_table_well_locked", "channel_race_free", "channel_send_close_shape"]
+                ck.discharged += 4
+                ck.theorems += ["channel_table_well_locked", "channel_race_free", "channel_check_then_act", "channel_send_close_shape"]
             else:
-                ck.log("regenerated channel lock obligations FAILED; ill-locked: %s\n%s" % (ill, o[-1200:]))
-                ck.broken.append("obligation:well_locked channel_table (ill-locked: %s)" % ",".join(ill))
+                ck.log("regenerated channel lock obligations FAILED; ill-locked: %s; test of `closed` and dependent store not in one exclusive section: %s\n%s" % (ill, cta_ill, o[-1200:]))
+                ck.broken.append("obligation:channel_table (ill-locked: %s; check-then-act outside one exclusive section: %s)" % (",".join(ill), ",".join(cta_ill)))
                 ck.coq_log_tail = o[-1500:]
 
     # ---------------------------------------------------------------- controlled schedules
@@ -151,6 +160,14 @@ def main(ck):
             [["send"], ["close"], ["is", "recv"]],
             [["send", "send"], ["close"], ["is", "recv", "is", "recv"]],
             [["send", "len"], ["cap", "recv"], ["len", "close"]],
+            # two concurrent closers (seeded C09-3: a closed-test outside the exclusive section lets both reach close()),
+            # alone, queued behind a parked sender (cap 0: until the receiver comes; cap>=1: behind send.checked), and with
+            # a third closer / a query in between
+            [["close"], ["close"]],
+            [["send"], ["close"], ["close"]],
+            [["send"], ["close"], ["close"], ["recv"]],
+            [["send", "send"], ["close"], ["is", "close"], ["recv", "recv"]],
+            [["send"], ["close"], ["close"], ["close"], ["recv"]],
         ]
         for cap in ((0, 1, 2) if ck.tier == "quick" else (0, 1, 2, 3, 4)):
             for sh in shapes:
@@ -162,22 +179,37 @@ def main(ck):
             ths = [["send"] * rng.randint(1, 3) for _ in range(np_)] + \
                   [[rng.choice(["recv", "recv", "recv", "is", "len", "cap"]) for _ in range(rng.randint(1, 3))] for _ in range(nc)] + \
                   [rng.choice([["close"], ["close"], ["is", "close"], ["close", "close"]])]
+            if rng.random() < 0.35:          # a second closer thread
+                ths.append(rng.choice([["close"], ["is", "close"], ["close", "is"]]))
             n = len(ths)
             choices = [rng.randrange(n) for _ in range(60)]
             # bias: let the closer act right after somebody reached a yield point
             if rng.random() < 0.5:
                 for i in range(2, 60, rng.choice([3, 4, 5])):
-                    choices[i] = n - 1
+                    choices[i] = rng.choice([x for x in range(n) if "close" in ths[x]])
             cases.append({"cap": rng.choice([0, 0, 1, 2, 4]), "threads": ths, "choices": choices})
     terms, tmap = [], []
     nsched, complete, incomplete = 0, 0, 0
+    skipped = [0]
     if cases:
         # several engine processes in parallel (each case is independent)
         chunks = [cases[i::8] for i in range(8)]
         outs = [None] * len(chunks)
 
         def work(k):
-            outs[k] = vworker.run_worker([binary, "sched"], chunks[k], per_case_timeout=180)
+            # batches with an error budget: once a worker chunk has produced 6 failing cases (hangs cost seconds each)
+            # the remaining cases of the chunk are not run -- the findings are already there
+            res, errs = [], 0
+            for b in range(0, len(chunks[k]), 10):
+                part = chunks[k][b:b + 10]
+                if errs >= 6:
+                    res += [{"traces": [], "skipped": True}] * len(part)
+                    skipped[0] += len(part)
+                    continue
+                r = vworker.run_worker([binary, "sched"], part, per_case_timeout=60, restart_exit_codes=(3,))
+                errs += sum(1 for o in r if "worker_death" in o or any(t.get("err") for t in o.get("traces", [])))
+                res += r
+            outs[k] = res
         ths = [threading.Thread(target=work, args=(k,)) for k in range(len(chunks))]
         for t in ths:
             t.start()
@@ -187,6 +219,8 @@ def main(ck):
             for c, o in zip(ch, os_ or [{"worker_death": {"signature": "driver-thread-failed"}}] * len(ch)):
                 if "worker_death" in o:
                     death_violation(ck, "sched", c, o["worker_death"])
+                    continue
+                if o.get("skipped"):
                     continue
                 if c.get("explore"):
                     if o.get("complete"):
@@ -229,7 +263,11 @@ def main(ck):
                 total = np_ * k
                 per = -(-total // nc) + 1
                 ths = [["send"] * k for _ in range(np_)] + [["recv"] * per for _ in range(nc)] + [rng.choice([["close"], ["is", "close"]])]
+                if (np_ + nc + g + cap) % 2 == 0:          # every other configuration: two (or three) closers racing
+                    ths += [["close"]] * rng.choice([1, 1, 2])
                 stress.append({"cap": cap, "threads": ths, "gomaxprocs": g, "repeat": 60 if ck.tier == "quick" else 400})
+        for g in (2, 4):
+            stress.append({"cap": 1, "threads": [["close"], ["close"], ["close"], ["is", "close"], ["recv"]], "gomaxprocs": g, "repeat": 300 if ck.tier == "quick" else 3000})
     souts, rc, err = run_lines([racebin, "stress"], [json.dumps(c) for c in stress]) if stress else ([], 0, "")
     sterms, smap = [], []
     nfail = 0
@@ -320,6 +358,7 @@ echo $out, "|", $ch->isClosed() ? "closed" : "open", "|", $ch->send(5) ? "sent" 
     ck.cov["distinct_schedules"] = distinct
     ck.cov["explored_configs_complete"] = complete
     ck.cov["explored_configs_budget_exhausted"] = incomplete
+    ck.cov["sched_cases_not_run_after_6_failures_in_a_worker"] = skipped[0]
     ck.cov["schedules_with_blocking"] = nblocked
     ck.cov["schedules_with_spontaneous_wakeups"] = nspont
     ck.cov["rounds_distribution"] = {str(k): sum(1 for c, tr in tmap if len(tr["rounds"]) // 4 * 4 == k) for k in range(0, 40, 4)}
